@@ -202,7 +202,8 @@ func (w *W) goStmt(t *Thread, f *frame, x *ssa.Go, key int, g *Term) *Term {
 		t.truncated = Or(t.truncated, And(g, Not(done), allTaken))
 		w.noteSpawnCap(x, fa.fn, And(g, Not(done), allTaken))
 	}
-	_, g = w.op(t, key, g, opSpec{yield: false, sync: true, pos: x.Pos(), kind: "go", enabled: Not(allTaken), effect: func(exec *Term) Value {
+	var takes []spawnTake
+	_, g = w.op(t, key, g, opSpec{yield: false, sync: true, pos: x.Pos(), kind: "go", enabled: Not(allTaken), spawn: &takes, effect: func(exec *Term) Value {
 		free := True
 		for _, s := range slots {
 			take := And(exec, free, Not(s.spawned))
@@ -210,6 +211,7 @@ func (w *W) goStmt(t *Thread, f *frame, x *ssa.Go, key int, g *Term) *Term {
 			if take.IsFalse() {
 				continue
 			}
+			takes = append(takes, spawnTake{s.id, take})
 			if s.args == nil || s.spawned.IsFalse() {
 				s.args = args
 				s.fn = mergeFA(take, fa, s.fn, s.spawned.IsFalse())
